@@ -629,6 +629,20 @@ func c06Mutate(c *fw.Ctx, idx int) {
 				// continue a UTF-8 character (none started one)
 				run = append(bytes.Repeat([]byte{0xa0}, r.Range(28, 45)), bytes.Repeat([]byte{[]byte{0x80, 0xbf, 0x85}[r.Intn(3)]}, r.Range(1, 40))...)
 			}
+			if r.Chance(1, 8) {
+				// well-formed multi-byte characters (ideographs, emoji, UTF-8 spelt
+				// no-break spaces), a few or many, perhaps at the start of a line of
+				// their own: bytes and characters count differently from there on
+				unit := []string{"\u6f22\u5b57", "\U0001F600", "\u00a0", "\u00e9", "\u2003", "\u6f22 \U0001F30D"}[r.Intn(6)]
+				txt := strings.Repeat(unit, r.Range(1, 14))
+				if r.Bool() {
+					txt = "\n" + txt
+				}
+				if r.Bool() {
+					txt += "\n"
+				}
+				run = []byte(txt)
+			}
 			if r.Chance(1, 12) {
 				// texts of several kilobytes (thresholds such as 4096 and 65536 are nearby)
 				run = bytes.Repeat([]byte{fill}, []int{4000, 4090, 4096, 4100, 5000, 9000, 65530, 65540, 70000}[r.Intn(9)]+r.Intn(3))
